@@ -747,7 +747,9 @@ class Repo:
                 if bt and bt in self.classes:
                     m = self.lookup_method(self.classes[bt], fn.attr)
                     if m is not None:
-                        return self._ann_class(m.node.returns)
+                        r = self._ann_class(m.node.returns)
+                        if r is not None or fn.attr not in ("Lock", "RLock", "Event"):
+                            return r
                 # execmodel factories
                 if fn.attr in ("Lock", "RLock"):
                     return "Lock"
